@@ -498,7 +498,24 @@ def check_invocation(tests: T.List[dict], inv: dict, bld: str, work: str, ev: T.
     args, env = run_args(inv)
     env['C12_LOG'] = log
     cmd = ['test', '--no-rebuild'] + args + inv['names']
-    r = run_sub(cmd, cwd=bld, env=env, timeout=600)
+    import subprocess as _sp
+    try:
+        r = run_sub(cmd, cwd=bld, env=env, timeout=300)
+    except _sp.TimeoutExpired:
+        # every generated test ends by itself after at most HANG_S seconds: a `meson test` that is still there after five minutes
+        # waits for something that will never come.  Run once more (the first run may have met an overloaded machine) before it counts.
+        for p in glob.glob(os.path.join(bld, 'meson-logs', 'testlog*')) + [log]:
+            try:
+                os.unlink(p)
+            except OSError:
+                pass
+        try:
+            r = run_sub(cmd, cwd=bld, env=env, timeout=600)
+        except _sp.TimeoutExpired:
+            started = sorted({run.tid for run in parse_events(log)}) if os.path.exists(log) else []
+            return Failure('run/meson-test-never-finishes', case,
+                           f'`meson {" ".join(cmd)}` did not finish within 300 s and, started again, within 600 s (every test of the set ends by '
+                           f'itself after at most {HANG_S} s); tests that were started: {started}; selected (model): {run_names}')
     runs = parse_events(log)
     marker = work
     ctxmsg = f'\ncommand: meson {" ".join(cmd)} env={ {k: v for k, v in env.items() if k != "C12_LOG"} }\nselected (model): {run_names}\n'
